@@ -153,7 +153,7 @@ def reserved_words():
     global _RESERVED
     if _RESERVED is None:
         import subprocess
-        code = "import json,sys; sys.path.insert(0,'/repo'); from netconan.default_reserved_words import default_reserved_words as d; print(json.dumps(sorted(d)))"
+        code = "import json,sys,os; sys.path.insert(0,os.environ.get('NETCONAN_REPO','/repo')); from netconan.default_reserved_words import default_reserved_words as d; print(json.dumps(sorted(d)))"
         _RESERVED = set(json.loads(subprocess.run(["/venv/bin/python", "-c", code], capture_output=True, text=True).stdout))
     return _RESERVED
 
